@@ -287,6 +287,26 @@ def axis_level(tier, seed, violations, cov, jobs):
         v1, pool = U.gen_pattern(ts, rng, pool)
         v2, pool = U.gen_pattern(ts, rng, pool if rng.random() < 0.3 else U.Pool(30))
         pairs.append((v1, v2))
+    # refinements (typed): the dimensions have PRODUCT types given as flat atom lists and every axis is a grouping of
+    # consecutive atoms into blocks (12 = 2x2x3 as 12 / 2*6 / 4*3 / 2*2*3), block axes shared between the dimensions of a
+    # pattern: unify_list meets factors that an EARLIER pair of the same call has already bound and must split them
+    # through the existing binding (branches m < n and m > n of the product loop on a non-empty substitution)
+    n_refine = 0
+    for _ in range(160 if quick else 4000):
+        base = rng.choice(U.REFINE_BASES)
+        lts = []
+        for _d in range(rng.choice([1, 2, 2, 3])):
+            if rng.random() < 0.6:
+                i = rng.randrange(len(base)); j = rng.randint(i + 1, len(base)); lts.append(base[i:j])
+            else: lts.append(base)
+        rng.shuffle(lts)
+        ps, psh = rng.choice([0.3, 0.5, 0.7]), rng.choice([0.3, 0.5, 0.8])
+        pool = U.Pool()
+        v1 = [U.gen_refine_axis(l, pool, rng, ps, psh) for l in lts]
+        pool2 = pool if rng.random() < 0.25 else U.Pool(30)
+        v2 = [U.gen_refine_axis(l, pool2, rng, ps, psh) for l in lts]
+        if envs(v1 + v2) <= ENVB: n_refine += 1
+        pairs.append((v1, v2))
     pairs = [p for p in pairs if envs(p[0] + p[1]) <= ENVB]
     uvals, avals = [], []
     for es, fs in pairs:
